@@ -15,7 +15,7 @@ import builtins as _builtins
 import operator as _op
 
 from . import Unmodelled
-from .consteval import Ref, Obj, Unfoldable
+from .consteval import Ref, Obj, Unfoldable, MsgRef
 
 
 class Opaque:
@@ -395,8 +395,8 @@ class Interp:
 
     def stmt(self, s):
         self.world.steps += 1
-        if self.world.steps > 400000:
-            raise Unmodelled('interpretation budget exceeded (400000 statements)')
+        if self.world.steps > getattr(self.world, 'budget', 400000):
+            raise Unmodelled(f"interpretation budget exceeded ({getattr(self.world, 'budget', 400000)} statements)")
         if isinstance(s, ast.Assign):
             val = self.ev(s.value)
             for t in s.targets:
@@ -556,6 +556,16 @@ class Interp:
         if isinstance(node, ast.Call):
             ref = self.a.res.resolve(node.func, self.m)
             if ref:
+                if node.args and not node.keywords and ref.startswith('builtin:'):
+                    # the message of a Python-level exception: kept as text, parts that are not known read '?'
+                    saved_ = getattr(self, '_lenient_fstring', False)
+                    self._lenient_fstring = True
+                    try:
+                        msg_ = self._safe_ev(node.args[0])
+                    finally:
+                        self._lenient_fstring = saved_
+                    if isinstance(msg_, str):
+                        return MsgRef(ref, msg_)
                 return Ref(ref)
         ref = self.a.res.resolve(node, self.m) if isinstance(node, (ast.Name, ast.Attribute)) else None
         if ref:
@@ -611,6 +621,11 @@ class Interp:
     dunder_truth = True    # True: the truth value of an abstract instance is decided by inlining its class's __bool__
 
     def truth(self, v):
+        if isinstance(v, Ref) and (v.ref.startswith('builtin:') or self._is_pkg_class(v.ref)
+                                   or isinstance(self.a.res.lookup(v.ref)[1], ast.FunctionDef)) and '(' not in v.ref:
+            # a class, a function, or an exception instance known by its class: true unless the class says otherwise
+            if not self._is_pkg_class(v.ref) or (self._find_method(v.ref, '__bool__')[1] is None and self._find_method(v.ref, '__len__')[1] is None):
+                return True
         if isinstance(v, (Opaque, Ref)):
             raise Unmodelled(f'truth value of symbolic {v!r}')
         if isinstance(v, Rec):
@@ -815,15 +830,29 @@ class Interp:
                     parts.append(str(v.value))
                 elif isinstance(v, ast.FormattedValue):
                     val = self._safe_ev(v.value)
-                    if isinstance(val, Rec) and isinstance(val.f.get('cls'), str):
+                    lenient_ = getattr(self, '_lenient_fstring', False)
+                    if isinstance(val, MsgRef):
+                        name_ = val.ref.rpartition(':')[2]
+                        val = f'{name_}({val.message!r})' if v.conversion == 114 else val.message
+                        conv = -1
+                    elif isinstance(val, Rec) and isinstance(val.f.get('cls'), str):
                         found, res = self._dunder(val, '__repr__' if v.conversion == 114 else '__str__')
                         if not found or not isinstance(res, str):
+                            if lenient_:
+                                parts.append('?')
+                                continue
                             return Opaque('fstring')
                         val = res
                         conv = -1
                     else:
                         conv = v.conversion
+                    if isinstance(val, Ref) and lenient_ and (val.ref.startswith('builtin:') or self._is_pkg_class(val.ref)):
+                        val = val.ref.rpartition(':')[2] + ('()' if conv == 114 else '')
+                        conv = -1
                     if isinstance(val, (Opaque, Ref, Rec, PyModel, LambdaVal, BoundMethod)):
+                        if lenient_:
+                            parts.append('?')
+                            continue
                         return Opaque('fstring')
                     spec = ''
                     if v.format_spec is not None:
@@ -1052,6 +1081,16 @@ class Interp:
             if isinstance(fac_, Ref) and fac_.ref in native_:
                 return _collections.defaultdict(native_[fac_.ref])
             raise Unmodelled('collections.defaultdict with a factory that is not a builtin container type')
+        if ref in ('ext:functools.lru_cache', 'ext:functools.cache') and ref not in self.call_models:
+            fnlike_ = (RawFunc, Closure, LambdaVal, BoundMethod, Ref)
+            if len(args) == 1 and not kwargs and isinstance(args[0], fnlike_):
+                return LruCache(self, args[0], None if ref.endswith('.cache') else 128, False)        # bare @lru_cache
+            mx_ = args[0] if args else kwargs.get('maxsize', 128)
+            ty_ = args[1] if len(args) > 1 else kwargs.get('typed', False)
+            if not (mx_ is None or isinstance(mx_, int)) or not isinstance(ty_, bool):
+                raise Unmodelled('lru_cache with symbolic parameters')
+            me_ = self
+            return _LruFactory(lambda f_: LruCache(me_, f_, mx_, ty_))
         if ref == 'ext:functools.partial' and ref not in self.call_models and args:
             return Partial(args[0], args[1:], kwargs)
         if ref in ('ext:operator.methodcaller', 'ext:operator.itemgetter', 'ext:operator.attrgetter') and ref not in self.call_models and args:
@@ -1245,6 +1284,10 @@ class Interp:
     def _inline(self, om, fnode, args, kwargs, closure=False, skip_first=False, self_class=None):
         if self.depth >= self.max_depth:
             raise Unmodelled(f'inlining deeper than {self.max_depth} calls at {fnode.name}')
+        counts_ = getattr(self.world, 'call_counts', None)
+        if counts_ is not None:
+            key_c = (getattr(om, 'name', '?'), fnode.name)
+            counts_[key_c] = counts_.get(key_c, 0) + 1
         params = [a.arg for a in fnode.args.posonlyargs + fnode.args.args]
         first = params[0] if params else None
         if skip_first:
@@ -1321,7 +1364,7 @@ class Interp:
             finally:
                 self.env, self.scopes, self.m, self.self_class, self.def_class, self.first_param = saved
         if isinstance(callee, RawFunc):
-            return self._inline(callee.module, callee.fnode, list(args), kwargs)
+            return self._inline(callee.module, callee.fnode, list(args), kwargs, self_class=getattr(callee, 'self_class', None))
         if isinstance(callee, Rec) and isinstance(callee.f.get('cls'), str):
             cm_c, call_c = self._find_method(callee.f['cls'], '__call__')
             if call_c is not None:
@@ -1505,7 +1548,23 @@ class Interp:
             full = [recv] + list(args)
         else:
             full = list(args)     # plain function called through the class: the instance is the first argument
+        if meth.decorator_list and self._effective_decorators(cm, meth):
+            defref_ = self._def_class_of(cm, meth)
+            return self.invoke(self._method_object(f'{defref_}.{meth.name}', cm, meth, defref_), full, kwargs)
         return self._inline(cm, meth, full, kwargs, self_class=cref)
+
+    def _method_object(self, ref, om, fnode, cref):
+        """The object stored in the class for a decorated method (decorators applied innermost first), once per world."""
+        if ref in self.world.funcobjs:
+            return self.world.funcobjs[ref]
+        cur = RawFunc(ref, om, fnode)
+        cur.self_class = cref
+        for d in reversed(self._effective_decorators(om, fnode)):
+            sub = Interp(self.a, om, {}, isinstance_fn=self.isinstance_fn, call_models=self.call_models, inline_pkg=True,
+                         depth=self.depth + 1, world=self.world)
+            cur = sub.invoke(sub.ev(d), [cur], {})
+        self.world.funcobjs[ref] = cur
+        return cur
 
     def _dunder(self, recv, name, *args):
         """(found, value): call the special method `name` of the abstract instance recv, when its class defines it."""
@@ -1576,6 +1635,8 @@ class Interp:
     def _type_of(self, v):
         if isinstance(v, Rec) and isinstance(v.f.get('cls'), str):
             return Ref(v.f['cls'])
+        if isinstance(v, MsgRef):
+            return Ref(v.ref)
         if isinstance(v, Ref) and (v.ref.startswith('builtin:') and isinstance(getattr(_builtins, v.ref[8:], None), type)
                                    and issubclass(getattr(_builtins, v.ref[8:]), BaseException) or self._is_pkg_class(v.ref)):
             return v        # an exception class stands for its instance: its type is the class itself
@@ -1927,6 +1988,18 @@ class Interp:
         if gref in self.world.initialised:
             return
         self.world.initialised.add(gref)
+        store_ = obj.f.get('__native__') if isinstance(obj, Rec) else obj
+        icache_ = self.a.__dict__.setdefault('_module_init_cache', {})
+        if gref in icache_ and isinstance(store_, dict) and not self.call_models.keys() & icache_[gref][1]:
+            store_.update(icache_[gref][0])      # same source, same registrations: replayed once per analysis
+            return
+        before_ = len(self.world.globals)
+        self._module_init_uncached(gref, obj)
+        if isinstance(store_, dict) and all(_immutable(k_) and _immutable(v_) for k_, v_ in store_.items()) \
+                and len(self.world.globals) == before_:
+            icache_[gref] = (dict(store_), frozenset())
+
+    def _module_init_uncached(self, gref, obj):
         _, mod, name = gref.split(':', 2)
         m = self.a.repo.modules.get(mod)
         if m is None or '.' in name:
@@ -2042,6 +2115,8 @@ class Interp:
                 self_class = cref
         if fnode is None and isinstance(fn, (ast.Name, ast.Attribute)):
             ref = self.a.res.resolve(fn, self.m)
+            if ref in self.call_models:
+                return None         # a modelled context manager: its model is called like any other function
             om, fnode = self.a.res.lookup(ref) if ref else (None, None)
         if not isinstance(fnode, ast.FunctionDef) or not self._decorated(fnode, 'contextmanager'):
             return None
@@ -2371,7 +2446,7 @@ Interp._aggregate = _aggregate
 # decorated functions, signatures, partial application, match statements
 # ----------------------------------------------------------------------------------------------------------
 _TRANSPARENT_DECORATORS = {'pkg:xlfunctions.xl:register', 'ext:functools.wraps', 'builtin:staticmethod', 'builtin:classmethod',
-                           'builtin:property', 'ext:functools.cached_property', 'ext:functools.lru_cache', 'ext:functools.cache',
+                           'builtin:property', 'ext:functools.cached_property',
                            'ext:dataclasses.dataclass', 'ext:contextlib.contextmanager'}
 
 
@@ -2429,6 +2504,58 @@ def _signature_of(self, func):
 Interp._effective_decorators = _effective_decorators
 Interp._func_object = _func_object
 Interp._signature_of = _signature_of
+
+
+class _LruFactory(PyModel):
+    def __init__(self, make):
+        self.make = make
+
+    def __call__(self, f):
+        return self.make(f)
+
+
+class LruCache(PyModel):
+    """functools.lru_cache / functools.cache around a function of the package: results remembered per argument tuple, keyed the way
+    Python keys them (hash and equality of the arguments - True and 1 and 1.0 are one key unless typed=True); entries beyond
+    maxsize are evicted oldest-first. Abstract instances are keyed by identity when their class does not define equality."""
+
+    def __init__(self, interp, func, maxsize=128, typed=False):
+        self.a, self.world, self.call_models, self.isinstance_fn = interp.a, interp.world, interp.call_models, interp.isinstance_fn
+        self.func, self.maxsize, self.typed = func, maxsize, typed
+        self.store = {}
+        self.hits = 0
+
+    def _key_part(self, interp, v):
+        if isinstance(v, Rec):
+            cref = v.f.get('cls')
+            if isinstance(cref, str) and (interp._find_method(cref, '__eq__')[1] is not None or interp._find_method(cref, '__hash__')[1] is not None):
+                raise Unmodelled('memoised call keyed by an abstract instance with its own equality')
+            return ('id', id(v))
+        if isinstance(v, (list, dict, set)):
+            raise ExcRaised(Ref('builtin:TypeError'))       # unhashable
+        if isinstance(v, tuple):
+            return tuple(self._key_part(interp, x) for x in v)
+        if isinstance(v, (Opaque,)):
+            raise Unmodelled('memoised call with a symbolic argument')
+        return (type(v), v) if self.typed else v
+
+    def __call__(self, *args, **kwargs):
+        module = getattr(self.func, 'module', None)
+        interp = Interp(self.a, module if module is not None else next(iter(self.a.repo.modules.values())), {}, world=self.world,
+                        call_models=self.call_models, isinstance_fn=self.isinstance_fn, inline_pkg=True, depth=1)
+        key = (tuple(self._key_part(interp, a_) for a_ in args), tuple(sorted((k_, self._key_part(interp, v_)) for k_, v_ in kwargs.items())))
+        if key in self.store:
+            self.hits += 1
+            return self.store[key]
+        res = interp.invoke(self.func, list(args), kwargs)
+        if self.maxsize is None or self.maxsize > 0:
+            self.store[key] = res
+            if self.maxsize is not None and len(self.store) > self.maxsize:
+                del self.store[next(iter(self.store))]
+        return res
+
+    def cache_clear(self):
+        self.store.clear()
 
 
 class Partial(PyModel):
